@@ -13,6 +13,7 @@ R3  MU_WAITING: cleared only by the spinlock holder and only when the queue is k
 R4  wake completeness: in every function, an element moved to a local wake list reaches store(waiting, 0) and semaphore V in a loop that unlinks every element.
 R5  sleeper protocol: every nsync_mu_semaphore_p* call is inside a loop whose continuation condition re-reads the wake flag / ready times.
 R6  no blocking call while a spinlock bit is held.
+R8  no plain (non-RMW) store to the mutex word by a thread without exclusive ownership: it erases concurrent releases / hint changes.
 R7  the thread that raised MU_LONG_WAIT clears it when it acquires, for every pre-state: otherwise a free mutex stays un-acquirable for threads that
     have not waited, which queue themselves with nobody left to wake them (= C14.R4)."""
 from .. import util, mumodel, ir as IR
@@ -148,6 +149,24 @@ def run(ctx, rep):
     from .. import wakeshape
     wakeshape.check_wake_loops(mod, rep, 'C02.R4')
     wakeshape.check_sleeper_loops(mod, rep, 'C02.R5', SEM_P)
+    # R8: every change of the mutex word by a thread that does not own it exclusively (write lock + spinlock) is an RMW.  A plain store
+    # by a thread that holds only the spinlock (or nothing) writes back a value read earlier and erases what others changed meanwhile:
+    # a reader's release (the count stays one too high - the last real release sees "another reader remains" and wakes nobody), a set
+    # MU_WAITING, a cleared MU_DESIG_WAKER.  (Same typestate fact as C01.R3, judged here for the lost wake-up.)
+    rep.rule('C02.R8', 'no plain store to the mutex word by a thread without exclusive ownership (an erased release or hint loses a wake-up)')
+    seen8 = set()
+    for r in eng.records:
+        if r.kind == 'trans' and r.wc.name == 'mu' and r.how == 'store':
+            s8 = r.site(eng.wrappers)
+            ok = r.hold == 'W' and r.spin == 1
+            key8 = (s8.fn.name, s8.id, ok)
+            if key8 in seen8:
+                continue
+            seen8.add(key8)
+            rep.instance('C02.R8', 'store to the mutex word at %s in typestate hold=%s spinlock=%s [%s]' % (s8.where(), r.hold, r.spin, r.entry)); rep.oblig('C02.R8', ok)
+            if not ok:
+                rep.violate(Violation('C02.R8', s8.where(), 'plain store to the mutex word by a thread that holds only %s: a release or hint-bit change made concurrently by another thread is overwritten, so e.g. a departed reader stays counted and the last real release wakes nobody [entry %s]'
+                                      % ('the spinlock' if r.spin == 1 else 'hold=%s' % r.hold, r.entry), site='%s/plain-store-lost-update' % s8.fn.name))
     # R7: a hint bit that makes a free mutex un-acquirable for fresh threads must not outlive the thread that raised it (shared with C14.R4)
     from .C14 import check_long_wait_owner
     check_long_wait_owner(eng, K, rep, 'C02.R7')
